@@ -34,7 +34,8 @@ def parseL4Case (j : Json) : Rt.Case :=
     prepareErr := gb j "prepareErr", runErr := gb j "runErr", txEnd := gs j "txEnd",
     finishers := strList j "finishers", concurrent := gn j "concurrent", op := gs j "op",
     dests := gs j "dests", calls := strList j "calls", cancelAt := optInt j "cancelAt",
-    preCtx := gs j "preCtx", extraSets := gn j "extraSets", fewCols := gb j "fewCols" }
+    preCtx := gs j "preCtx", extraSets := gn j "extraSets", fewCols := gb j "fewCols",
+    pairOp := gs j "pairOp", aEnd := gs j "aEnd" }
 
 def parseL4Obs (j : Json) : Rt.Obs :=
   { returns := strList j "returns", events := strList j "events", eventCtx := strList j "eventCtx",
@@ -48,7 +49,8 @@ def predJson (p : Rt.Pred) : Json :=
     ("events", Json.arr (p.log.map (fun e => Json.str e.render)).toArray),
     ("inUse", (p.inUse : Json)), ("stored", (p.stored : Json)),
     ("appended", Json.arr (p.appended.map (fun (n : Nat) => (n : Json))).toArray),
-    ("outcome", Json.str p.outcome), ("finish", Json.arr (p.finish.map Json.str).toArray)]
+    ("outcome", Json.str p.outcome), ("finish", Json.arr (p.finish.map Json.str).toArray),
+    ("evA", Json.arr (p.evA.map Json.str).toArray), ("evB", Json.arr (p.evB.map Json.str).toArray)]
 
 def handleL4 (j : Json) : Except String Json := do
   let c := parseL4Case (← j.getObjVal? "case")
